@@ -502,6 +502,10 @@ func (m *Dense) Exp(a Matrix) {
 		}},
 	}
 
+	// The norm must be taken before a is copied into the
+	// receiver, which may overlap a.
+	n1 := Norm(a, 1)
+
 	a1 := m
 	a1.Copy(a)
 	v := getDenseWorkspace(r, r, true)
@@ -518,7 +522,6 @@ func (m *Dense) Exp(a Matrix) {
 	a2 := getDenseWorkspace(r, r, false)
 	defer putDenseWorkspace(a2)
 
-	n1 := Norm(a, 1)
 	for i, t := range pade {
 		if n1 > t.theta {
 			continue
